@@ -30,10 +30,10 @@ REL = 1e-9
 def cases(tier, seed):
     per = 2 if tier == "quick" else 3
     defs = space.family_bind(tier) + space.family_ops(tier) + space.family_cse(tier)
-    if tier == "thorough":
-        # the same programs handed over as strings (ui.Model parses them)
-        defs += [dict(d, as_strings=True, name=d["name"] + "-str") for d in space.family_ops("quick")]
-        defs += [dict(d, as_strings=True, name=d["name"] + "-str") for d in space.family_bind("quick")[::3]]
+    # the same programs handed over as strings (ui.Model parses them)
+    strs = [dict(d, as_strings=True, name=d["name"] + "-str") for d in space.family_ops("quick")]
+    strs += [dict(d, as_strings=True, name=d["name"] + "-str") for d in space.family_bind("quick")[::3]]
+    defs += strs if tier == "thorough" else strs[::4]
     for d in defs:
         nsym = len(d["state"]) + len(d["control"])
         p = per if nsym <= 5 else 2
@@ -152,6 +152,35 @@ def eval_case(case):
                               "what": f"{d['name']}: state '{s}' cse on {outs[True][s]!r} != off {outs[False][s]!r} at {env}"})
         if len(fails) > 5:
             break
+    # the same computation for states/controls handed over as integer or single-precision arrays (from_data): the model's
+    # values do not depend on the dtype the caller happened to use for exactly representable inputs
+    import numpy as np
+    ivals = [3, -2, 1, 4, -1, 2, 5, -3]
+    ienv = {s: float(ivals[i % 8]) for i, s in enumerate(st + ct)}
+    full = dict(ienv, dt=0.125)
+    full.update(cal)
+    try:
+        ref = {s: ref_eval(asts[s], full) for s in st}
+    except Singular:
+        ref = None
+    if ref is not None and not fails:
+        for dtype in ("int64", "float32", "float64"):
+            for cse, m in models.items():
+                try:
+                    sdata = np.array([[ienv[s]] for s in st], dtype=dtype)
+                    cdata = np.array([[ienv[s]] for s in ct], dtype=dtype).reshape((len(ct), 1))
+                    r = m.model(0.125, m.State.from_data(sdata), m.Control.from_data(cdata))
+                    o = pyimpl.vec_by_name(r)
+                except Exception as e:
+                    fails.append({"key": f"model-raises:{type(e).__name__}", "what": f"{d['name']} cse={cse}: model() on a {dtype} "
+                                  f"State.from_data raised {type(e).__name__}: {str(e)[:150]}"})
+                    break
+                n += 1
+                for s in st:
+                    if not pyimpl.close(o[s], ref[s], REL):
+                        fails.append({"key": "value-mismatch", "what": f"{d['name']} cse={cse}: state '{s}' = {o[s]!r} for a {dtype} input array, "
+                                      f"symbolic value {float(ref[s])!r} at {ienv}"})
+                        break
     # model() without control must be refused iff the model has controls
     m = models[True]
     try:
